@@ -304,7 +304,13 @@ func (p *textProgressBar) showProgress() {
 
 	percentage := "100%"
 	if p.fileSize != 0 {
-		percentage = fmt.Sprintf("%.0f%%", math.Round(float64(p.fileStep)*100.0/float64(p.fileSize)))
+		ratio := math.Round(float64(p.fileStep) * 100.0 / float64(p.fileSize))
+		if ratio < 0 {
+			ratio = 0
+		} else if ratio > 100 {
+			ratio = 100
+		}
+		percentage = fmt.Sprintf("%.0f%%", ratio)
 	}
 	total := convertSizeToString(float64(p.fileStep))
 	speed := p.recentSpeed.getSpeed(p.fileStep, &now)
@@ -408,6 +414,11 @@ func (p *textProgressBar) getProgressBar(length int) string {
 	fullSize := totalSize
 	if p.fileSize != 0 {
 		fullSize = int(math.Round((float64(totalSize) * float64(p.fileStep)) / float64(p.fileSize)))
+		if fullSize < 0 {
+			fullSize = 0
+		} else if fullSize > totalSize {
+			fullSize = totalSize
+		}
 	}
 	emptySize := totalSize - fullSize
 	if p.colorA == nil || p.colorB == nil {
